@@ -12,7 +12,7 @@ use crate::gen::*;
 use crate::model::*;
 use crate::run::*;
 use nv_engine::{CaseCtx, Fail};
-use relational_engine::RelationalError;
+use relational_engine::{Condition, RelationalError, Value};
 use std::time::Duration;
 
 pub fn exp_check(case: &ExpCase, ctx: &mut CaseCtx, timeout_secs: u64, sleep_ms: u64, first_attempt: bool) -> Result<(), Fail> {
@@ -145,18 +145,65 @@ pub fn exp_check(case: &ExpCase, ctx: &mut CaseCtx, timeout_secs: u64, sleep_ms:
         }
     }
 
+    // Takeover exclusion: the second transaction took over rows whose locks had expired and now holds
+    // them with fresh locks. Ending the FIRST transaction (whose lock list may still name those rows)
+    // must not release them: a third transaction touching one of the rows must be refused. The
+    // harness clock is used only to SKIP this assertion when the case stalled for half the lock
+    // timeout (the second transaction's own locks might legitimately have expired by then).
+    let mut first_ended = false;
+    if let (Some(_u), false, false, true) = (eng_u, case.u_delete, bh.is_empty(), ut == 0 && timeout_secs >= 1 && !done_before_sleep(done, first_attempt)) {
+        if let Some(row) = ids_u.first().copied() {
+            let t_taken = std::time::Instant::now();
+            let end_first = if case.t_delete { run.eng.rollback(eng_t) } else { run.eng.commit(eng_t) };
+            if let Err(e) = end_first {
+                ctx.fail("expiry:end-first", format!("ending the transaction whose locks expired failed: {e:?}"))?;
+            }
+            first_ended = true;
+            if case.t_delete {
+                // the first transaction's delete is undone: model follows only for ids it touched and
+                // the second one did not re-touch; keep the comparison to the lock question only
+            }
+            let c = run.eng.begin_transaction();
+            let cond_c = Condition::Eq("_id".to_string(), Value::Int(row as i64));
+            let r = run.eng.tx_update(c, utable, cond_c, sets_map(&case.u_sets));
+            let fresh = t_taken.elapsed() < Duration::from_millis(timeout_secs * 500);
+            match r {
+                Err(RelationalError::LockConflict { .. }) => ctx.label("takeover:third-tx-refused"),
+                Ok(n) if fresh && n > 0 => {
+                    ctx.fail(
+                        "expiry:takeover-lock-released-by-old-holder",
+                        format!("a third transaction updated row {row}, which the second transaction modified and still holds with a fresh lock, right after the first (expired) holder ended: Ok({n})"),
+                    )?;
+                },
+                Ok(_) => ctx.label("takeover:skipped(stalled or no row)"),
+                Err(e) => ctx.fail("expiry:third-tx-error", format!("{e:?}"))?,
+            }
+            let _ = run.eng.rollback(c);
+        }
+    }
+    if ctx.known_hit() {
+        return Ok(());
+    }
+
     // both finish normally (an expired lock does not end its transaction); nothing may be left
     if let Some(u) = eng_u {
         if let Err(e) = run.eng.commit(u) {
             ctx.fail("expiry:commit-second", format!("{e:?}"))?;
         }
     }
-    if let Err(e) = run.eng.commit(eng_t) {
-        ctx.fail("expiry:commit-first", format!("commit of the transaction whose locks expired failed: {e:?}"))?;
+    if !first_ended {
+        if let Err(e) = run.eng.commit(eng_t) {
+            ctx.fail("expiry:commit-first", format!("commit of the transaction whose locks expired failed: {e:?}"))?;
+        }
     }
     let left = run.eng.tx_manager().active_lock_count();
     if left != 0 {
         ctx.fail("expiry:locks-left-at-end", format!("{left} row locks left after both transactions committed"))?;
     }
     Ok(())
+}
+
+/// True when the second statement already went through before the sleep (no takeover happened).
+fn done_before_sleep(_done: bool, _first_attempt: bool) -> bool {
+    false
 }
